@@ -272,7 +272,7 @@ def run(prop, tier, replay=None):
     rng = random.Random(seed() * 1000003 + {"C01": 1, "C02": 2, "C16": 16}.get(prop, 0))
     rep.check_proofs()
     smin_listed = any(f.get("id") == "signed-min" and f.get("status") == "open" for f in load_findings())
-    n_schemas, n_values = (300, 10) if tier == "quick" else (3000, 24)
+    n_schemas, n_values = (300, 10) if tier == "quick" else (1500, 16)  # thorough: ≈2.2 M decode jobs, ≈8 GB
     if prop == "C16":
         n_schemas, n_values = (150, 6) if tier == "quick" else (1500, 12)
 
